@@ -94,7 +94,7 @@ def r16_1(ctx, prog, crate):
                 if side(b, s0, pa, pb) and side(b, s1, pa, pb):
                     _site(ctx, b, pa, pb, s0, s1, "binop:" + s["rv"]["op"], b.where(bi))
                     sites += 1
-    ctx.anchor("R16.1", "comparison sites in comparators", sites, 17)
+    ctx.anchor("R16.1", "comparison sites in comparators", sites, 8)
     return found
 
 
@@ -440,7 +440,7 @@ def r16_6(ctx, prog, crate):
                 continue
             ctx.check((x.path, kind) in PANIC_EXCEPTIONS, "R16.6", [x.path, kind],
                       "`%s` (reachable while sorting) has a panic edge: %s" % (x.path, kind), x.where(i))
-    ctx.anchor("R16.6", "terminators examined in code reachable from sort_by_attr", n, 200)
+    ctx.anchor("R16.6", "terminators examined in code reachable from sort_by_attr", n, 80)
     found = {x.path for x in bodies}
     for want in ("util::sort::natural_cmp", "util::sort::cmp_int", "<util::sort::Tokenizer as std::iter::Iterator>::next",
                  "<util::sort::Token as std::cmp::Ord>::cmp", "config::SortingAttr::cmp_bench_arg_names"):
